@@ -106,7 +106,7 @@ impl Property for C19 {
         "C19"
     }
     fn rule(&self) -> &'static str {
-        "profile `lines`: flow programs (with C/X rows and repeat, depth 0-4) printed with 0-4 blank lines before the header, blank and comment-only lines anywhere after it, trailing comments, LF or CRLF throughout or chosen line by line, varied blank space, last row with or without newline; in a quarter of the cases the driver fails on one call and the caller goes on; every row statement carries a unique literal tag in a dedicated 32-bit input column - except that in a third of the cases two adjacent rows are made identical, tag included (blocks of g items then alternate between their two lines). Oracle (no control-flow semantics): for every yielded row, dynamic and static, row.line == the line the printer recorded for the tag read back from the row's own input vector; every top-level row's tag must be seen. Non-trivial: some row at depth >= 1, or lines inserted above a row, or CRLF, or leading blank lines; distinct by text."
+        "profile `lines`: flow programs (with C/X rows and repeat, depth 0-4) printed with 0-4 blank lines before the header (one case in six embedded in a .dig document and loaded with load_test), blank and comment-only lines anywhere after it, trailing comments, LF or CRLF throughout or chosen line by line, varied blank space, last row with or without newline; in a quarter of the cases the driver fails on one call and the caller goes on; every row statement carries a unique literal tag in a dedicated 32-bit input column - except that in a third of the cases two adjacent rows are made identical, tag included (blocks of g items then alternate between their two lines). Oracle (no control-flow semantics): for every yielded row, dynamic and static, row.line == the line the printer recorded for the tag read back from the row's own input vector; every top-level row's tag must be seen. Non-trivial: some row at depth >= 1, or lines inserted above a row, or CRLF, or leading blank lines; distinct by text."
     }
     fn cases(&self, tier: Tier) -> u64 {
         match tier {
@@ -115,7 +115,7 @@ impl Property for C19 {
         }
     }
     fn required_classes(&self) -> Vec<&'static str> {
-        vec!["crlf", "mixed-line-ends", "lead-blank", "comment-lines", "no-final-newline", "row-in-loop", "static-run", "repeat", "C-row", "X-row", "last-line-is-row-without-newline", "row-after-driver-failure", "second-of-identical-rows-checked"]
+        vec!["crlf", "mixed-line-ends", "lead-blank", "comment-lines", "no-final-newline", "row-in-loop", "static-run", "repeat", "C-row", "X-row", "last-line-is-row-without-newline", "row-after-driver-failure", "second-of-identical-rows-checked", "loaded-from-a-dig-document"]
     }
     fn run(&self, s: &Streams) -> CaseOut {
         let mut out = CaseOut::new();
@@ -130,7 +130,10 @@ impl Property for C19 {
         let twins = if tch.chance(1, 3) { make_twins(&mut built, &mut tch) } else { None };
         out.class_if(twins.is_some(), "identical-adjacent-rows");
         let lines = program_lines(&built.prog);
-        let r = render(&lines, &mut Ch::new(&s[1]), LayoutOpts::ALL);
+        // one case in six (if no signal is bidirectional) goes through a .dig document: the
+        // lines are still counted from the start of the test's own source text
+        let via_dig = tch.chance(1, 6) && !built.sigs.iter().any(|s| matches!(s.kind, Kind::Bidir(_)));
+        let r = render(&lines, &mut Ch::new(&s[1]), if via_dig { LayoutOpts { crlf: false, ..LayoutOpts::ALL } } else { LayoutOpts::ALL });
         let mut dch = Ch::new(&s[2]);
         let mut spec = gen_spec(
             &mut dch,
@@ -156,8 +159,39 @@ impl Property for C19 {
         );
         out.class_if(f.depth >= 1 && f.rows > 0, "row-in-loop");
 
-        let Some(tc) = load_wellformed(&mut out, "c19", &r.text, &built.sigs) else {
-            return out;
+        let tc = if via_dig {
+            use crate::digdoc::*;
+            let mut elements: Vec<Element> = built
+                .sigs
+                .iter()
+                .map(|s| {
+                    let (kind, default) = match s.kind {
+                        Kind::Out => (PinKind::Out, None),
+                        Kind::In(InVal::Val(v)) | Kind::Bidir(InVal::Val(v)) => (PinKind::In, Some((Some(v), Some(false)))),
+                        Kind::In(InVal::Z) | Kind::Bidir(InVal::Z) => (PinKind::In, Some((Some(0), Some(true)))),
+                    };
+                    Element::Pin(Pin { kind, label: Some(s.name.clone()), bits: Some(s.bits), default })
+                })
+                .collect();
+            elements.push(Element::Test(DigTest { label: Some("t".into()), source: r.text.clone() }));
+            let xml = DigDoc { elements }.render(&mut Ch::new(&[]));
+            let loaded = guarded(|| digital_test_runner::dig::File::parse(&xml).ok().and_then(|f| f.load_test(0).ok()));
+            match loaded {
+                Ok(Some(tc)) => {
+                    out.class("loaded-from-a-dig-document");
+                    tc
+                }
+                // loading .dig documents is C16's business
+                _ => {
+                    out.discard("dig-document-did-not-load");
+                    return out;
+                }
+            }
+        } else {
+            let Some(tc) = load_wellformed(&mut out, "c19", &r.text, &built.sigs) else {
+                return out;
+            };
+            tc
         };
         let real = run_real(&tc, &built.sigs, &spec, &RunOpts { max_next: 600, continue_after_driver_error: true, ..Default::default() });
         if let Some(RealItem::Panic(p)) = &real.ctor {
